@@ -619,6 +619,10 @@ func (sp *ServiceProvider) SignArtifactResolve(req *ArtifactResolve) error {
 	if err != nil {
 		return err
 	}
+	// sign the message itself: a signature left from an earlier call is not
+	// part of it (Element would embed it, and the emitted element would no
+	// longer match the digest)
+	req.Signature = nil
 	assertionEl := req.Element()
 
 	signedRequestEl, err := signingContext.SignEnveloped(assertionEl)
@@ -638,6 +642,10 @@ func (sp *ServiceProvider) SignAuthnRequest(req *AuthnRequest) error {
 	if err != nil {
 		return err
 	}
+	// sign the message itself: a signature left from an earlier call is not
+	// part of it (Element would embed it, and the emitted element would no
+	// longer match the digest)
+	req.Signature = nil
 	assertionEl := req.Element()
 
 	signedRequestEl, err := signingContext.SignEnveloped(assertionEl)
@@ -1372,6 +1380,10 @@ func (sp *ServiceProvider) SignLogoutRequest(req *LogoutRequest) error {
 		return err
 	}
 
+	// sign the message itself: a signature left from an earlier call is not
+	// part of it (Element would embed it, and the emitted element would no
+	// longer match the digest)
+	req.Signature = nil
 	assertionEl := req.Element()
 	signedRequestEl, err := signingContext.SignEnveloped(assertionEl)
 	if err != nil {
@@ -1626,6 +1638,10 @@ func (sp *ServiceProvider) SignLogoutResponse(resp *LogoutResponse) error {
 		return err
 	}
 
+	// sign the message itself: a signature left from an earlier call is not
+	// part of it (Element would embed it, and the emitted element would no
+	// longer match the digest)
+	resp.Signature = nil
 	assertionEl := resp.Element()
 	signedRequestEl, err := signingContext.SignEnveloped(assertionEl)
 	if err != nil {
